@@ -24,6 +24,11 @@ TRUSTED_BASE = l3common.TRUSTED_L3 + [
     "GNU diff 3.8 and git 2.39 are used as generators of inputs; no model of them: their output is checked against the hypotheses of the theorem by the extracted checker (DiffCheck.c01_check)"]
 
 ALPHA = [b"a", b"b", b"c", b"{", b"}", b"", b"x y", b"end"]
+# lines that, behind the '-', '+' or ' ' of a hunk line, look like patch syntax: a removed "-- comment" reads "--- comment",
+# an added "++ x" reads "+++ x", a context "@@ -1 +1 @@" is indented by one space, ... (seeded C01-h)
+LOOKALIKE = [b"-- sql comment", b"-- ", b"--", b"-- a/f", b"++ b/f", b"++ plus", b"- minus", b"+ plus", b"@@ -1 +1 @@", b"@ -1,2 +1,2 @@",
+             b"diff --git a/x b/x", b"iff --git a/x b/x", b"Index: x", b"ndex: x", b"\\ No newline at end of file", b" leading space", b"=====",
+             b"*** 1,2 ****", b"rename from x", b"new file mode 100644", b"GIT binary patch", b"Binary files a and b differ", b"-", b"+"]
 
 
 def rand_file(rng):
@@ -38,6 +43,8 @@ def rand_file(rng):
         lines = [bytes(rng.randrange(256) for _ in range(rng.randint(0, 6))).replace(b"\n", b"~") for _ in range(n)]
     elif rng.random() < 0.1:
         lines = [rng.choice(ALPHA) + b"\r" for _ in range(n)]
+    elif rng.random() < 0.15:
+        lines = [rng.choice(ALPHA + LOOKALIKE + LOOKALIKE) for _ in range(n)]
     else:
         lines = [rng.choice(ALPHA) for _ in range(n)]
     data = b"\n".join(lines) + b"\n"
@@ -57,15 +64,16 @@ def mutate(rng, a):
     lines = a.split(b"\n")
     if nl:
         lines = lines[:-1]
+    pool = ALPHA + LOOKALIKE if (any(l in LOOKALIKE for l in lines) or rng.random() < 0.05) else ALPHA
     for _ in range(rng.randint(1, 4)):
         op = rng.choice("idr")
         i = rng.randrange(len(lines) + 1)
         if op == "i":
-            lines[i:i] = [rng.choice(ALPHA) for _ in range(rng.randint(1, 3))]
+            lines[i:i] = [rng.choice(pool) for _ in range(rng.randint(1, 3))]
         elif op == "d" and lines:
             del lines[min(i, len(lines) - 1)]
         elif lines:
-            lines[min(i, len(lines) - 1)] = rng.choice(ALPHA) + b"!"
+            lines[min(i, len(lines) - 1)] = rng.choice(pool) + (b"!" if pool is ALPHA or rng.random() < 0.5 else b"")
     out = b"\n".join(lines)
     if lines and (nl if rng.random() < 0.8 else not nl):
         out += b"\n"
